@@ -419,6 +419,58 @@ def g_lo_ones(F, rng, tier):
     return out
 
 
+def g_tie_digit_counts(F, rng, tier):
+    """G17: exact ties w x 10^-k (w = (2m+1) 5^k 2^j, at most 19 digits) for EVERY digit count of w the format allows,
+    with w at the bottom (100x..) and at the top (999x..) of its decade and in between: whatever depends on the NUMBER
+    OF DIGITS of a short significand that the moderate stage declines (scientific-exponent reduction loops, digit
+    counting on the big-integer path of `compact` builds) sees every count and both ends of a decade"""
+    out = []
+    lo_odd, hi_odd = 1 << F.p, 1 << (F.p + 1)
+    for nd in range(len(str(lo_odd)), 20):
+        for (a, b) in ((10 ** (nd - 1), 10 ** (nd - 1) + 10 ** (nd - 1) // 100), (10 ** nd - 10 ** nd // 1000, 10 ** nd - 1),
+                       (2 * 10 ** (nd - 1), 9 * 10 ** (nd - 1))):
+          for parity in (1, 3):                    # 2m+1 = 1 / 3 (mod 4): lower neighbour even / odd
+            found = 0
+            ks = list(range(0, 28))
+            rng.shuffle(ks)
+            for k in ks:
+                if found >= (1 if tier == "quick" else 3):
+                    break
+                f5 = 5 ** k
+                for j in rng.sample(range(0, 40), 40):
+                    d = f5 << j
+                    o_lo, o_hi = max(lo_odd, -(-a // d)), min(hi_odd - 1, b // d)
+                    if o_hi < o_lo:
+                        continue
+                    odd = (rng.randrange(o_lo, o_hi + 1) & ~3) | parity
+                    while odd > o_hi:
+                        odd -= 4
+                    if odd < o_lo:
+                        continue
+                    w = odd * d
+                    e2 = j - k                                     # value = odd * 2^(j-k)
+                    if not (F.etiny + F.mbits + 2 < e2 + F.p < F.emax - 2):
+                        continue
+                    assert a <= w <= b and len(str(w)) == nd
+                    for dw, tag in ((0, "G17:tie"), (1, "G17:tie+1"), (-1, "G17:tie-1")):
+                        i, f, e = rng.choice(forms_keep(str(w + dw), -k, rng))
+                        out.append(mk(F.name, i, f, e, tag))
+                    found += 1
+                    break
+    return out
+
+
+def forms_keep(ds, e10, rng):
+    """representations of int(ds) x 10^e10 that KEEP every digit of ds (trailing zeros included: they count as digits)"""
+    n = len(ds)
+    out = [(ds, "", e10)]
+    for cut in {1, n // 2, n - 1}:
+        if 0 < cut < n:
+            out.append((ds[:cut], ds[cut:], e10 + n - cut))
+    out.append(("", ds, e10 + n))
+    return out
+
+
 def g_floats_exact(F, rng, n):
     """exactly representable values (the float itself, not the midpoint)"""
     out = []
